@@ -1081,8 +1081,9 @@ def check(run):
     seen = set()
     real = 0
     for what, rep, cls in failures:
-        key = (what.split(':')[0], what, cls)
-        if key in seen:
+        import re
+        key = (re.sub(r'\d+', 'N', what.split(' of ')[0].split('=')[0].split(' for ')[0])[:70], cls)
+        if key in seen or (cls is None and real >= 4):
             continue
         seen.add(key)
         if run.violation(what, rep, classify=cls):
